@@ -77,7 +77,9 @@ def _isect(out):
         ("count", ["a(N) :- N = #count { X,Y : b(X,Y), dom(X) }."]),
     ]
     for (dn, share, ds), (un, us) in itertools.product(defs, uses):
-        if dn in ("two-mixedheads-not", "three-notshared") and un in ("weak", "count"):
+        if dn in ("two-mixedheads-not", "three-notshared", "two-shared-renamed") and un in ("weak", "count"):
+            continue
+        if dn == "three-shared" and un == "count":
             continue
         _prog(out, ds + us, f"isect-{'shared' if share else 'notshared'}")
 
@@ -112,9 +114,19 @@ def _heads(out):
         ("body-otherarg", "a(X,Y) :- b(X,Y), dom(Y)."),
     ]
     for (kn, ks), (un, u) in itertools.product(kinds, uses):
-        if un == "body-otherarg" and not (kn.startswith("twice") or ks[0].startswith("b(X,Y) :-")):
+        if un == "body-otherarg" and not (kn == "twice" or ks[0].startswith("b(X,Y) :-")):
+            continue
+        if un == "sum" and (kn in ("multi-other", "twice-same") or ks[0].startswith("{ b(X,Y) }")):
             continue
         _prog(out, ks + [u], f"head-{kn}")
+    # the other predicate of a shared head has a second rule that does not share the element condition
+    others = [
+        "{ b(X,Y) : dom(X); g(X,Y) : q(Y) } :- r(X,Y).",
+        "b(X,Y) : dom(X); g(X,Y) : q(Y) :- r(X,Y).",
+        "#count { X,Y : b(X,Y) : r(X,Y), dom(X); X,Y : g(X,Y) : r(X,Y), q(Y) } 2.",
+    ]
+    for k, extra in itertools.product(others, ["g(X,Y) :- r(Y,X).", "g(X,Y) :- r(Y,X), q(Y)."]):
+        _prog(out, [k, extra, "a(X,Y) :- g(X,Y), q(Y)."], "head-multi-second-rule")
 
 
 # ---------------------------------------------------------------------------------------------------------------
@@ -158,13 +170,12 @@ def _argmaps(out):
                 ("b(X,1), q(1)", "X"),
                 ("b(X,Y), q(1)", "X,Y"),
                 ("b(X,2), q(2)", "X"),
-                ("b(X,Y), dom(X), q(2)", "X,Y"),
             ],
         ),
         (
             "const-two-rules",
             ["b(X,1) :- dom(X), q(1).", "b(X,2) :- dom(X), q(2)."],
-            [("b(X,Y), q(Y)", "X,Y"), ("b(X,Y), q(1)", "X,Y"), ("b(X,1), q(1)", "X"), ("b(X,2), q(1)", "X")],
+            [("b(X,Y), q(Y)", "X,Y"), ("b(X,Y), q(1)", "X,Y"), ("b(X,2), q(1)", "X")],
         ),
         (
             "const-body-only",
@@ -174,7 +185,7 @@ def _argmaps(out):
         (
             "const-sym",
             ["b(X,k) :- dom(X), q(k)."],
-            [("b(X,Y), q(Y)", "X,Y"), ("b(X,Y), q(X)", "X,Y"), ("b(X,k), q(k)", "X"), ("b(X,Y), q(k)", "X,Y")],
+            [("b(X,Y), q(Y)", "X,Y"), ("b(X,Y), q(X)", "X,Y"), ("b(X,Y), q(k)", "X,Y")],
         ),
         (
             "function-head",
@@ -186,11 +197,6 @@ def _argmaps(out):
                 ("b(f(X),Y), r(X,Y)", "X,Y"),
                 ("b(f(X),Y), dom(X)", "X,Y"),
             ],
-        ),
-        (
-            "function-body-only",
-            ["h(f(X)) :- dom(X), q(X).", "b(X,Y) :- r(X,Y), h(f(X))."],
-            [("b(X,Y), h(f(X))", "X,Y"), ("b(X,Y), h(f(Y))", "X,Y")],
         ),
         (
             "function-use",
@@ -213,7 +219,7 @@ def _argmaps(out):
         (
             "arity0-head",
             ["b :- c, dom(X), q(X)."],
-            [("b, c", ""), ("b, dom(X)", "X"), ("b, not not c", ""), ("b, not c", "")],
+            [("b, c", ""), ("b, dom(X)", "X"), ("b, not not c", "")],
         ),
         (
             "arith",
@@ -231,7 +237,7 @@ def _argmaps(out):
     for gn, ds, uses in groups:
         for i, (body, hv) in enumerate(uses):
             _prog(out, ds + [f"{_head(hv)} :- {body}."], f"args-{gn}")
-            if i < 2 and hv and not gn.startswith("arity0"):
+            if i < 1 and gn in ("permuted", "repeated-head", "const-int", "function-head", "arity3", "arith"):
                 _prog(out, ds + [_cond(body, hv.split(",")[0])], f"args-{gn}")
 
 
@@ -254,22 +260,20 @@ def _chains(out):
     for s1, s2 in itertools.product("pnd", repeat=2):
         _prog(out, build((s1, s2), 3), f"chain-{'pos' if s1 == 'p' else 'neg'}link")
     # length 3, end of the chain
-    for s1, s2, s3 in itertools.product("pn", "pnd", "pnd"):
-        if s2 == "d" and s3 == "d":
-            continue
+    for s1, s2, s3 in itertools.product("pn", "pn", "pnd"):
         ok = s1 == "p" and s2 == "p"
         _prog(out, build((s1, s2, s3), 4), f"chain-{'pos' if ok else 'neg'}link")
     # length 3, middle of the chain
-    for s1, s2 in itertools.product("pnd", repeat=2):
+    for s1, s2 in itertools.product("pnd", "pn"):
         _prog(out, build((s1, s2, "p"), 3), f"chain-{'pos' if s1 == 'p' else 'neg'}link")
     # plain (non-choice) links: what is implied is implied by the closure as well
-    for sv in [("p", "p"), ("p", "n"), ("n", "p"), ("p", "p", "n"), ("p", "n", "p")]:
+    for sv in [("p", "p"), ("p", "n"), ("n", "p"), ("p", "n", "p")]:
         stms = [f"p{i + 1}(X) :- dom(X), {SIGNS[s]}p{i + 2}(X)." for i, s in enumerate(sv)]
         stms += [f"u{j + 1}(X) :- p1(X), {SIGNS[s]}p{len(sv) + 1}(X)." for j, s in enumerate("pnd")]
         _prog(out, stms, f"chain-plain-{'pos' if set(sv[:-1]) == {'p'} else 'neg'}link")
     # composition of argument maps
     d = ["{ p1(X,Y) } :- p2(Y,X).", "{ p2(X,Y) } :- r(X,Y), dom(Y), not q(X)."]
-    for lit in ["r(Y,X)", "r(X,Y)", "dom(X)", "dom(Y)", "not q(Y)", "not q(X)", "p2(Y,X), r(Y,X)"]:
+    for lit in ["r(Y,X)", "r(X,Y)", "dom(X)", "dom(Y)", "not q(Y)", "not q(X)"]:
         _prog(out, d + [f"u(X,Y) :- p1(X,Y), {lit}."], "chain-argmap")
     d = ["{ p1(X) } :- p2(X,X).", "{ p2(X,Y) } :- r(Y,X), dom(Y)."]
     for lit in ["r(X,X)", "dom(X)", "r(X,Y), q(Y)"]:
@@ -279,13 +283,13 @@ def _chains(out):
 # ---------------------------------------------------------------------------------------------------------------
 def _samepred(out):
     """F5: two literals over the same predicate"""
-    rhs_args = ["X,Y", "_,Y", "X,_", "_,_", "Y,X", "X,X", "X,Z"]
+    rhs_args = ["X,Y", "_,Y", "X,_", "Y,X", "X,Z"]
     for args, s in itertools.product(rhs_args, "pnd"):
         guard = "dom(Z), " if (args == "X,Z" and s != "p") else ""
-        kind = f"eq-{s}" if args in ("X,Y", "_,Y", "X,_", "_,_") else "diff"
+        kind = f"eq-{s}" if args in ("X,Y", "_,Y", "X,_") else "diff"
         _prog(out, [f"a(X,Y) :- p(X,Y), {guard}{SIGNS[s]}p({args})."], f"same-{kind}")
     for args, s in itertools.product(["X,Y", "_,Y", "Y,X"], "pnd"):
-        if args == "Y,X" and s == "d":
+        if args != "X,Y" and s == "d":
             continue
         kind = f"eq-{s}" if args != "Y,X" else "diff"
         _prog(out, [_cond(f"p(X,Y), {SIGNS[s]}p({args})")], f"same-{kind}")
@@ -330,6 +334,8 @@ def _signs(out):
             [f"{{ b(X) }} :- dom(X), {SIGNS[sd]}q(X).", f"a(X) :- {SIGNS[ls]}b(X), dom(X), {SIGNS[sd]}q(X)."],
             "sign-dominating-neg",
         )
+        if ls == "d":
+            continue
         _prog(
             out,
             [
@@ -347,6 +353,7 @@ def _scopes(out):
     fixed = [
         ("noleak", "a(X) :- b(X,Y), z(Z), e(Z,Y) : dom(X)."),
         ("noleak", "a :- dom(X) : b(X,Y)."),
+        ("noleak", "a :- b(X,Y) : dom(X), s(X,Y)."),
         ("noleak", "a(Z) :- z(Z), e(Z,X) : b(X,Y); e(Z,X) : dom(X)."),
         ("noleak", "a(X,Z) :- z(Z), dom(X), e(Z,Y) : b(X,Y)."),
         ("noleak", "a(X,Z) :- z(Z), dom(X), not e(Z,Y) : b(X,Y)."),
@@ -357,14 +364,16 @@ def _scopes(out):
     ]
     for tag, u in fixed:
         _prog(out, d + [u], f"scope-{tag}")
+    # the head of a conditional literal is not in the scope of its condition (dom/1 varies over the answer sets)
+    _prog(out, ["{ dom(X) } :- q(X)."] + d + ["a(X) :- q(X), b(X,Y) : dom(X), s(X,Y)."], "scope-noleak")
     for f in ["#sum", "#min", "#max", "#count", "#sum+"]:
         _prog(out, d + [f"a(S) :- S = {f} {{ Y,X : b(X,Y), dom(X) }}."], "scope-fire")
         _prog(out, d + [f"a(X,S) :- dom(X), S = {f} {{ Y : b(X,Y) }}."], "scope-noleak")
-    for f in ["#sum", "#max", "#count"]:
+    for f in ["#sum", "#max"]:
         _prog(out, d + [f"a(S) :- S = {f} {{ Y,X : b(X,Y), dom(X); X,n : dom(X), q(X) }}."], "scope-fire")
         _prog(out, d + [f"a(X,S) :- b(X,_), S = {f} {{ Y : r(X,Y), dom(X) }}."], "scope-noleak")
         _prog(out, d + [f"a(S) :- S = {f} {{ Y,X : b(X,Y); X,n : dom(X) }}."], "scope-noleak")
-    for f in ["#sum", "#min"]:
+    for f in ["#min"]:
         _prog(out, d + [f"a :- 1 <= {f} {{ Y,X : b(X,Y), dom(X) }} <= 3."], "scope-fire")
         _prog(out, d + [f"a :- not 2 <= {f} {{ Y,X : b(X,Y), dom(X) }}."], "scope-fire")
         _prog(out, d + [f"a(X) :- dom(X), not 2 <= {f} {{ Y : b(X,Y) }}."], "scope-noleak")
@@ -392,12 +401,14 @@ def _inputs(out):
 
     for d in ("b(X,Y) :- dom(X), r(X,Y).", "{ b(X,Y) } :- dom(X), r(X,Y)."):
         for inn in ([], [("b", 2)]):
+            if not inn and d.startswith("b("):
+                continue  # same as isect "one"
             for u in scopes("X,Y", "b(X,Y), dom(X)"):
                 _prog(out, [d, u], f"input-{'declared' if inn else 'closed'}", inn)
     chain = ["b(X) :- c(X), q(X).", "c(X) :- dom(X), s(X)."]
     for inn, nm in (([], "closed"), ([("c", 1)], "declared-mid"), ([("b", 1)], "declared")):
         for tgt in ("dom", "c"):
-            for u in scopes("X", f"b(X), {tgt}(X)"):
+            for u in scopes("X", f"b(X), {tgt}(X)")[: 2 if nm == "declared" else 3]:
                 _prog(out, chain + [u], f"input-chain-{nm}", inn)
     # the dominated predicate is declared input and also defined: still implied
     for u in scopes("X,Y", "b(X,Y), dom(X)"):
@@ -420,21 +431,19 @@ def _booleans(out):
     sel = "{ sel(X) } :- dom(X)."
     shapes = [
         ("body", True, ["a(X) :- dom(X), {B}."]),
-        ("only", True, ["a :- {B}.", "c(X) :- dom(X), not a."]),
+        ("only", False, ["a :- {B}.", "c(X) :- dom(X), not a."]),
         ("constraint", False, [sel, ":- sel(X), q(X), {B}."]),
         ("choice", False, ["{ a(X) } :- dom(X), {B}."]),
-        ("weak", False, [sel, ":~ sel(X), {B}. [1@0,X]"]),
-        ("minimize", False, [sel, "#minimize { 1@0,X : sel(X), {B}; 2@0,X : sel(X), q(X) }."]),
+        ("weak", None, [sel, ":~ sel(X), {B}. [1@0,X]"]),
+        ("minimize", None, [sel, "#minimize { 1@0,X : sel(X), {B}; 2@0,X : sel(X), q(X) }."]),
         ("cond", True, ["a :- q(X) : dom(X), {B}."]),
-        ("condhead", True, ["a :- {B} : dom(X)."]),
+        ("condhead", False, ["a :- {B} : dom(X)."]),
         ("cond-only", False, ["a(X) :- dom(X), not q(X) : {B}."]),
         ("sum", False, ["a(S) :- S = #sum { X : dom(X), {B}; 5 : {B} }."]),
-        ("max", False, ["a(S) :- S = #max { X : dom(X); 7 : {B} }."]),
-        ("min", False, ["a(S) :- S = #min { X : dom(X), q(X); 0 : {B}, dom(X) }."]),
-        ("count", False, [sel, "a :- 1 #count { X : sel(X), {B} }."]),
+        ("min", None, ["a(S) :- S = #min { X : dom(X), q(X); 0 : {B}, dom(X) }."]),
     ]
     for _, withneg, stms in shapes:
-        for b in plain + (negs if withneg else []):
+        for b in plain[:2] if withneg is None else plain + (negs if withneg else []):
             val = "true" if b.count("not ") % 2 == (0 if "#true" in b else 1) else "false"
             _prog(out, [s.replace("{B}", b) for s in stms], f"bool-{val}")
     _prog(out, ["#false :- dom(X), q(X).", "a(X) :- dom(X)."], "bool-head")
